@@ -106,6 +106,12 @@ class SymArray(np.ndarray):
     def nonzero(self):
         return sym_where(self)
 
+    def max(self, axis=None, out=None, **kw):
+        return _reduce(np.maximum, UFUNC_TABLE[np.maximum], self, dict(axis=axis, keepdims=kw.get("keepdims", False)))
+
+    def min(self, axis=None, out=None, **kw):
+        return _reduce(np.minimum, UFUNC_TABLE[np.minimum], self, dict(axis=axis, keepdims=kw.get("keepdims", False)))
+
     def tofile(self, fid, *a, **k):
         if hasattr(fid, "sym_write"):
             return fid.sym_write(self)
